@@ -150,9 +150,14 @@ func (p *Parser) WaitClose() {
 }
 
 func (p *Parser) readRune() rune {
-	r, _, err := p.r.ReadRune()
+	r, size, err := p.r.ReadRune()
 	if p.escTimeout != nil {
 		p.escTimeout.Stop()
+	}
+	if r == unicode.ReplacementChar && size == 3 {
+		// a genuine U+FFFD in the input, not a decoding error (those have
+		// a size of 1)
+		return r
 	}
 	if r == unicode.ReplacementChar {
 		// If invalid UTF-8, let's read the byte and deliver
